@@ -110,6 +110,8 @@ var c08Pool = func() []poolEntry {
 		{"f(1, 'x')", [][]interface{}{{"f", func(a, b interface{}) (string, error) { return "two-any", nil }}, {"f", func(xs ...interface{}) (int, error) { return len(xs), nil }}, {"f", func(ctx context.Context, n float64, s string) (string, error) { return s, nil }}}},
 		{"p.age + len(p.name.first)", [][]interface{}{{"p", map[string]interface{}{"age": 1.0, "name": map[string]interface{}{"first": "Bo"}}}, {"p", map[string]interface{}{"age": int64(7), "name": map[string]interface{}{"first": ""}}}}},
 		{"max(a, b, y) + min(a, b, y) + abs(y) + round(b) + toInt(y)", [][]interface{}{{"y", 9.5}, {"y", -9.5, "b", 0.5}, {"a", 100}}},
+		{"[max([a, 0]...), join([s, 'kg'], ' '), [b, 1, 'k'], [[a], 2]]", [][]interface{}{{"a", 5.0}, {"a", 9.0, "s", "t"}, {"a", "x", "b", nil}}},
+		{"(a > 1 ? 'big' : 'small') + (typeof a) + toString([a, 1] == null)", [][]interface{}{{"a", 5.0}, {"a", 0.5}, {"a", "5"}}},
 		{"lpad(s, 'x', c) + left(s, a) + mid(s, a, c)", [][]interface{}{{"s", "abcdefgh"}, {"s", "中文字符", "c", 6}, {"a", 0, "c", 0}}},
 	}
 	for _, v := range variants {
@@ -289,7 +291,7 @@ func showExact(v interface{}) string {
 }
 
 // observe runs one operation; shared holds the trees of this history (process state).
-func observe(entry, kind int, shared map[int]*formula.SourceCode) (obs string, fail *eng.Fail) {
+func observe(entry, kind int, shared map[string]*formula.SourceCode) (obs string, fail *eng.Fail) {
 	e := c08Pool[entry]
 	switch kind {
 	case 0:
@@ -309,19 +311,19 @@ func observe(entry, kind int, shared map[int]*formula.SourceCode) (obs string, f
 				s += " AFTER-FORMAT=" + dumpTree(o.src)
 			}
 		}
-		if _, ok := shared[entry]; !ok && o.err == nil {
-			shared[entry] = o.src
+		if _, ok := shared[e.src]; !ok && o.err == nil {
+			shared[e.src] = o.src // entries with the same text share ONE tree (parse once, evaluate per record)
 		}
 		return s, nil
 	case 1, 2:
-		src, ok := shared[entry]
+		src, ok := shared[e.src]
 		if !ok {
 			o := safeParse([]byte(e.src))
 			if o.panicked || o.err != nil {
 				return "unparsable", nil
 			}
 			src = o.src
-			shared[entry] = src
+			shared[e.src] = src
 		}
 		before := dumpTree(src)
 		if kind == 1 {
@@ -376,7 +378,7 @@ var c08Baseline = map[[2]int]string{}
 func C08ChildMain(args []string) {
 	entry, _ := strconv.Atoi(args[0])
 	kind, _ := strconv.Atoi(args[1])
-	obs, f := observe(entry, kind, map[int]*formula.SourceCode{})
+	obs, f := observe(entry, kind, map[string]*formula.SourceCode{})
 	if f != nil {
 		obs = "FAIL:" + f.Msg
 	}
@@ -399,7 +401,7 @@ func baseline(entry, kind int) (string, error) {
 }
 
 func judgePure(c PureCase) *eng.Fail {
-	shared := map[int]*formula.SourceCode{}
+	shared := map[string]*formula.SourceCode{}
 	retained = nil
 	kinds := []string{"parse", "evaluate", "fields"}
 	defer func() { retained = nil }()
